@@ -10,7 +10,7 @@ import (
 
 const (
 	MaxTasks = 8
-	MaxLocks = 32
+	MaxLocks = 512
 	MaxSites = 1 << 15
 	MaxTrace = 1 << 13
 	mainSlot = MaxTasks
@@ -667,7 +667,7 @@ func itoa(n int) string {
 	return string(b[i:])
 }
 
-var mainHeld [MaxLocks]struct {
+var mainHeld [64]struct {
 	addr    uintptr
 	writer  bool
 	readers int
